@@ -558,3 +558,6 @@ crate::verif_env! {
 #[kani::stub(crc32fast::Hasher::internal_new_specialized, crate::verif_common::no_specialized_crc)]
 fn c13_p2_value_validate_enact_e4096() { validate_enact_case(4096) }
 }
+
+/// Log without private types in the signature (for harnesses of other modules).
+pub fn mk_log_plain(sync: bool) -> Log { mk_log(sync, None) }
